@@ -107,7 +107,7 @@ class _Recorder:
         self.error: BaseException | None = None
         self.kill_at: int | None = None
         self.ctx = dict
-        self.tags: list[str] = []
+        self.last: dict[str, str] = {}     # database kind -> tag of its most recent crash point
 
     def point(self, tag: str, kind: str) -> None:
         if not self.enabled:
@@ -118,12 +118,12 @@ class _Recorder:
             if idx == self.kill_at:
                 os.kill(os.getpid(), signal.SIGKILL)
             return
-        self.tags.append(tag)
+        self.last[kind] = tag
         if not self.select(idx):
             return
         dst = os.path.join(self.root, f"{self.prefix}{idx}")
         _copy_dir(self.src, os.path.join(dst, "sqlite"))
-        p = {"idx": idx, "tag": tag, "kind": kind, "dir": dst}
+        p = {"idx": idx, "tag": tag, "kind": kind, "dir": dst, "last": dict(self.last)}
         p.update(self.ctx())
         self.points.append(p)
 
@@ -140,6 +140,14 @@ class _Recorder:
         if self.error is not None:
             e, self.error = self.error, None
             raise e
+
+
+def _scratch_base() -> str | None:
+    """tmpfs if there is one (fsync of the many reopen/close cycles is free there; file semantics are the same)."""
+    shm = "/dev/shm"  # noqa: S108
+    if os.environ.get("C19_TMP"):
+        return os.environ["C19_TMP"]
+    return shm if os.path.isdir(shm) and os.access(shm, os.W_OK | os.X_OK) else None
 
 
 def _copy_dir(src: str, dst: str) -> None:
@@ -643,13 +651,10 @@ class _Eval:
         self.n_eval = 0
         self.rows: list = []
 
-    def _where_key(self, prob: tuple, where: str) -> str:
-        return f"{prob[1]}@{where}" if prob[2] else prob[1]
-
-    def _note(self, spec, point: dict, where: str, problems: list) -> list:  # noqa: ANN001
+    def _note(self, spec, point: dict, where: str, problems: list, sub_last: dict | None = None) -> list:  # noqa: ANN001
         keys = []
         for prob in problems:
-            key = self._where_key(prob, where)
+            key = _where_key(prob, point["last"], sub_last)
             keys.append(key)
             ent = self.found.get(key)
             if ent is None:
@@ -712,7 +717,7 @@ class _Eval:
                     problems2, stats2 = _verify(q["dir"], self.keys, self.uses, self.runner.records, acked, p["no"], None)
                     self.n_eval += 1
                     c.probe("second_crash_during_recovery")
-                    keys2 = self._note([k, q["idx"]], p, q["tag"], problems2)
+                    keys2 = self._note([k, q["idx"]], p, f"{tag} -> {q['tag']}", problems2, q["last"])
                     c.nontrivial(["second", tag, q["kind"], q["tag"]])
                     nvis2 = ",".join(f"{t}={len(v)}" for t, v in sorted(stats2["visible"].items()))
                     c.world.trace.event("crash2", q["kind"], f"{k}.{q['idx']}|{q['tag']}",
@@ -729,6 +734,18 @@ class _Eval:
             self.c.violate(ent["oracle"], key, f"{len(ent['points'])} crash state(s) {ent['points'][:8]}; first: {ent['msg']}")
             if self.c.violations and self.c.violations[-1]["key"] == key:
                 self.c.violations[-1]["crash_points"] = ent["points"][:64]
+
+
+def _where_key(prob: tuple, last: dict, sub_last: dict | None = None) -> str:
+    """
+    Violation key.  Failures to reopen are attributed to the crash window of the database that fails: the statement
+    before which the process died on *that* database's connection (second crash: inside the recovering open).
+    """
+    if not prob[2]:
+        return prob[1]
+    kind = prob[1].split(":", 1)[0]
+    where = (sub_last or {}).get(kind) or last.get(kind) or "never_opened"
+    return f"{prob[1]}@{where}"
 
 
 def _gen_keys() -> list:
@@ -894,7 +911,7 @@ def _count_calls(ops: list) -> dict | None:
     base = _strace_prefix()
     if base is None:
         return None
-    tmp = tempfile.mkdtemp(prefix="c19count_")
+    tmp = tempfile.mkdtemp(prefix="c19count_", dir=_scratch_base())
     try:
         out = os.path.join(tmp, "trace.txt")
         wrapper = [x if x != "/dev/null" else out for x in base] + ["-e", "trace=" + ",".join(KILL_CALLS)]
@@ -1021,7 +1038,7 @@ def _exec_selfkill(c, case: dict, tmp: str) -> int:  # noqa: ANN001
             raise HarnessProblem(msg)
         c.probe("copy_model_agrees")
         for prob in problems:
-            key = f"{prob[1]}@{pt['tag']}" if prob[2] else prob[1]
+            key = _where_key(prob, pt["last"])
             c.violate(prob[0], key, f"child SIGKILLed itself at crash point {k} [{pt['tag']}] "
                                     f"({len(acked)} acknowledged records): {prob[3]}")
             if c.violations and c.violations[-1]["key"] == key and "crash_points" not in c.violations[-1]:
@@ -1187,7 +1204,7 @@ def execute(case: dict) -> dict:
     from simkit.scenario import Case
 
     c = Case(case, first_only=False)
-    tmp = tempfile.mkdtemp(prefix="c19_")
+    tmp = tempfile.mkdtemp(prefix="c19_", dir=_scratch_base())
     try:
         scen = case.get("scenario")
         if scen == "strace":
